@@ -16,14 +16,26 @@ func New(ctxt *build.Context, fset *token.FileSet) types.Importer {
 	return imp
 }
 
+// AddPackages makes imp, which must be created by New, reuse the
+// given packages instead of importing them from the source once again.
+// A package that is imported twice is two different packages for the
+// type checker, so their types are never identical.
+func AddPackages(imp types.Importer, packages map[string]*types.Package) {
+	ifaceVal := *(*iface)(unsafe.Pointer(&imp))
+	srcImp := (*srcImporter)(ifaceVal.data)
+	for path, pkg := range packages {
+		srcImp.packages[path] = pkg
+	}
+}
+
 type iface struct {
 	_    *byte
 	data unsafe.Pointer
 }
 
 type srcImporter struct {
-	ctxt *build.Context
-	_    *token.FileSet
-	_    types.Sizes
-	_    map[string]*types.Package
+	ctxt     *build.Context
+	_        *token.FileSet
+	_        types.Sizes
+	packages map[string]*types.Package
 }
